@@ -145,7 +145,19 @@ def run(ctx):
             work = [("read", f"B{rng.choice(FILES['B'])}/{n}") for n in bn]
             for _ in range(ops):
                 r = rng.random()
-                if r < 0.05:
+                if r < 0.04:
+                    # several addresses in ONE read() call - among them bits of the same I/O slot in different words, the same word
+                    # twice, a word and one of its bits: each result answers its own address
+                    e_, b_ = rng.randrange(256), rng.randrange(16)
+                    io = rng.choice("IO")
+                    group = rng.choice([
+                        [f"{io}:{e_}.{w}/{b_}" for w in rng.sample(range(4), rng.choice([2, 3]))],
+                        [f"{io}:{e_}.{rng.randrange(4)}/{x}" for x in rng.sample(range(16), 3)],
+                        [f"N7:{e_}", f"N7:{e_}/{b_}", f"N7:{(e_ + 1) % 256}/{b_}"],
+                        [gen_address(rng, False) for _ in range(rng.choice([2, 4]))],
+                    ])
+                    work.append(("multiread", group))
+                elif r < 0.05:
                     work.append((rng.choice(["read", "write"]), gen_address(rng, rng.random() < 0.5, ABSENT)))
                 elif r < 0.08:
                     work.append(("badvalue", gen_address(rng, True)))
@@ -157,6 +169,24 @@ def run(ctx):
                     work.append(("bad", gen_bad(rng)))
             rng.shuffle(work)
             for op, text in work:
+                if op == "multiread":
+                    parsed = [(tx, refslc.parse_address(tx)) for tx in text]
+                    parsed = [(tx, a_) for tx, a_ in parsed if isinstance(a_, dict) and refslc.device_accepts(tab, a_)]
+                    if len(parsed) < 2:
+                        continue
+                    st, tags_ = b.call("read", drv.read, *[tx for tx, _ in parsed])
+                    res.ev()
+                    res.seen("multiread", len(parsed), parsed[0][1]["type"], len({a_["sub"] for _, a_ in parsed}) > 1)
+                    if st != "ok" or not isinstance(tags_, list) or len(tags_) != len(parsed):
+                        res.violation("multi-address-read-shape", f"read{tuple(tx for tx, _ in parsed)!r} -> {tags_!r:.160}", {"addresses": [tx for tx, _ in parsed]})
+                        continue
+                    for (tx, a_), tg_ in zip(parsed, tags_):
+                        want = refslc.expected_read(tab, a_)
+                        if not tg_ or not values_match(a_["type"], want, tg_.value):
+                            res.violation("multi-address-read-wrong-value", f"read{tuple(t_ for t_, _ in parsed)!r}: the result for {tx!r} is {tg_!r:.120}; the data table holds {want!r:.60}",
+                                          {"addresses": [t_ for t_, _ in parsed], "address": tx})
+                            break
+                    continue
                 a = refslc.parse_address(text)
                 if op == "bad":
                     if not (isinstance(a, tuple) and a[0] == "reject"):
